@@ -138,7 +138,7 @@ Proof.
 Qed.
 
 Lemma comp_of_total c : ok_or_err (comp_of c).
-Proof. unfold comp_of. destruct (_ =? _); [exact I|]. destruct (_ =? _); exact I. Qed.
+Proof. unfold comp_of. destruct (_ =? _); [exact I|]. destruct (supported_compression _); exact I. Qed.
 
 Lemma config_of_total p : ok_or_err (config_of p).
 Proof.
